@@ -751,28 +751,24 @@ export class ProcGenWrapper {
           if (childNodes.length) elem.insertChildren(childNodes, -1)
         },
         (slots) => {
-          if (!slots.length) return
-          const sortedSlots: Element[] = []
+          // the content of a slot is not necessarily contiguous among the children of the host
+          // (content is appended in creation order): collect the indexes and remove them from the tail
+          const indexes: number[] = []
           for (let i = 0; i < slots.length; i += 1) {
-            // ignore empty slots
-            if (slots[i]!.slotNodes!.length) sortedSlots.push(slots[i]!)
-          }
-          sortedSlots.sort(
-            (slot1, slot2) => slot1.slotNodes![0]!.parentIndex - slot2.slotNodes![0]!.parentIndex,
-          )
-          let l = 0
-          let r = 0
-          for (let i = 0; i < sortedSlots.length; i += 1) {
-            const slotNodes = sortedSlots[i]!.slotNodes!
-            const firstIndex = slotNodes[0]!.parentIndex
-            const lastIndex = slotNodes.findLast((node) => node.parentNode === elem)!.parentIndex
-            if (r !== firstIndex) {
-              if (l >= 0) elem.removeChildren(l, r - l)
-              l = firstIndex
+            const slotNodes = slots[i]!.slotNodes!
+            for (let j = 0; j < slotNodes.length; j += 1) {
+              const node = slotNodes[j]!
+              if (node.parentNode === elem) indexes.push(node.parentIndex)
             }
-            r = lastIndex + 1
           }
-          if (l !== r) elem.removeChildren(l, r - l)
+          indexes.sort((a, b) => b - a)
+          let i = 0
+          while (i < indexes.length) {
+            let j = i
+            while (j + 1 < indexes.length && indexes[j + 1] === indexes[j]! - 1) j += 1
+            elem.removeChildren(indexes[j]!, j - i + 1)
+            i = j + 1
+          }
         },
         (slot, slotValues, slotValueUpdatePathTrees) => {
           const slotName = slot._$slotName || ''
